@@ -18,6 +18,7 @@ from contracts.C05_component_restore import ColumnValidateRestoresSchema, RunSch
 from contracts.C02_coerce_helper import CoerceDtypeHelper
 from contracts.C06_run_checks import ArrayCollect, ArrayRunChecks, ColumnRunChecks, ContainerRunChecks
 from contracts.C05_multiindex_validate import MultiIndexValidate
+from contracts.C05_polars_components import PolarsCollectSchemaComponents, PolarsRunSchemaComponentChecks
 
 
 def strict(cls):
@@ -25,4 +26,4 @@ def strict(cls):
 
 
 CONTRACTS = [strict(c) for c in [ContainerValidate, SeriesSchemaValidate, ArrayValidate, IndexValidate, ColumnValidateRestoresSchema,
-                                 RunSchemaComponentChecks, ArrayRunChecks, ColumnRunChecks, ContainerRunChecks, CoerceDtypeHelper, MultiIndexValidate] + list(POLARS_API)]
+                                 RunSchemaComponentChecks, ArrayRunChecks, ColumnRunChecks, ContainerRunChecks, CoerceDtypeHelper, MultiIndexValidate, PolarsCollectSchemaComponents, PolarsRunSchemaComponentChecks] + list(POLARS_API)]
